@@ -151,7 +151,7 @@ theorem stmt_main_sem : ∀ f : Nat,
           obtain ⟨fc', hF', hpe⟩ := cond_sem hms hinv.inv env cnd hcx hwfe.1 hcc
             (fun fc hf => by rw [hf] at hcok; exact hcok)
           rw [hF] at hF'; cases hF'
-          have hsim := expr_sim hE henv (hinv.rel.agreeOn _ _) hinv.inv
+          have hsim := expr_sim hE henv (hinv.rel.agreeOn _ _ _) hinv.inv hinv.immVal
             (WFHyp_of_static (by simp only [List.all_cons, List.all_nil, Bool.and_true]; exact hwfe.1)) hvc hF
           have hcondF := C05.sim_cond hsim hb
           have hcond := hpe.symm.ok hcondF
@@ -192,7 +192,7 @@ theorem stmt_main_sem : ∀ f : Nat,
           obtain ⟨fc', hF', hpe⟩ := cond_sem hms hinv.inv env cnd hcx hwfe.1 hcc
             (fun fc hf => by rw [hf] at hcok; exact hcok)
           rw [hF] at hF'; cases hF'
-          have hsim := expr_sim hE henv (hinv.rel.agreeOn _ _) hinv.inv
+          have hsim := expr_sim hE henv (hinv.rel.agreeOn _ _ _) hinv.inv hinv.immVal
             (WFHyp_of_static (by simp only [List.all_cons, List.all_nil, Bool.and_true]; exact hwfe.1)) hvc hF
           have hcondF := C05.sim_cond hsim hb
           have hcond := hpe.symm.ok hcondF
@@ -301,7 +301,7 @@ theorem stmt_main_sem : ∀ f : Nat,
       obtain ⟨fc', hF', hpe⟩ := cond_sem hms hinv.inv env cond hcx hwfe'.1 hcc
         (fun fc'' hf => by rw [hF] at hf; cases hf; exact hcok)
       rw [hF] at hF'; cases hF'
-      have hsim := expr_sim hE henv (hinv.rel.agreeOn _ _) hinv.inv
+      have hsim := expr_sim hE henv (hinv.rel.agreeOn _ _ _) hinv.inv hinv.immVal
         (WFHyp_of_static (by simp only [List.all_cons, List.all_nil, Bool.and_true]; exact hwfe'.1)) hvc hF
       have hcondF := C05.sim_cond hsim hb
       have hcond := hpe.symm.ok hcondF
@@ -406,7 +406,7 @@ theorem prog_sem_both {ms : MacroSem} (hms : MsOK ms) {c : Ctx} (hc : c.ok = tru
   obtain ⟨σ1, hpro, h1, h2, h3, h4, h5, h6, h7, hout, hin⟩ := prologue_exec ms st.imms σ0
   have hnone : ∀ n, lookupS n σ0.locals = none := by intro n; rw [hloc]; rfl
   have hinv : Inv c σ0 σ1 := by
-    refine ⟨⟨h1.symm, h2.symm, h3.symm, h4.symm, h5.symm, h6.symm, h7.symm, ?_⟩, ⟨?_, ?_, ?_⟩, ?_⟩
+    refine ⟨⟨h1.symm, h2.symm, h3.symm, h4.symm, h6.symm, h7.symm, ?_⟩, ⟨?_, ?_, ?_⟩, ?_, ?_, ?_⟩
     · intro n v hn; rw [hnone] at hn; cases hn
     · intro n t v hn hv
       have hni : n ∉ st.imms.map (·.1) := by
@@ -414,10 +414,12 @@ theorem prog_sem_both {ms : MacroSem} (hms : MsOK ms) {c : Ctx} (hc : c.ok = tru
         exact (Ctx.ok_types hc hn).2.2 ((himms n).2 hm)
       rw [hout n hni, hnone] at hv; cases hv
     · intro l hl
-      rw [h5]
-      exact hin l (hpi ▸ (himms l).1 hl)
+      exact ⟨_, hin l (hpi ▸ (himms l).1 hl)⟩
     · intro ov hov; rw [h3]; exact hsrcs ov hov
+    · intro l hl
+      exact hin l (hpi ▸ (himms l).1 hl)
     · intro n _; exact hnone n
+    · intro l _; exact hnone l
   obtain ⟨efs, hefs, σIL', hx, hxF, hinv'⟩ := stmts_sem_both hms hc { assigned := assignedOfList prog, cfg := Cfg.fixed }
     hcs hcarve hwf hwfe hinv hex
   have hefs' : compileStmts { assigned := assignedOfList prog, cfg := Cfg.fixed } { imms := [], hyb := 0 } prog
